@@ -245,7 +245,10 @@ void wire_stmts(Scope &sc, const JV &stmts) {
             }
         } else if (op == "errcap") {
             WiringPortRef of = resolve_ref(sc, st.at("of"));
-            const TSValueTypeMetaData *err_schema = w.activate_error_capture(of.peered_node(), node_error_ts_meta());
+            ErrorCaptureOptions eco;
+            eco.trace_back_depth = (std::size_t)st.int_or("depth", 1);
+            eco.capture_values = st.bool_or("values", false);
+            const TSValueTypeMetaData *err_schema = w.activate_error_capture(of.peered_node(), node_error_ts_meta(), eco);
             out = WiringPortRef::peered_source(of.peered_node(), {}, err_schema, GraphEdgeSourceKind::ErrorOutput);
         } else if (op == "struct") {
             out = WiringPortRef::structural_source(parse_ts(st.at("schema").as_str()), std::move(ins));
